@@ -12,6 +12,9 @@ PROP = dict(
                        "Comdex.C05.base_conserved_partial", "Comdex.C05.base_conserved_partial_buys",
                        "Comdex.C05.base_conserved_partial_single", "Comdex.C05.base_conserved_partial_step",
                        "Comdex.C05.base_conserved_partial_match",
+                       "Comdex.C05.found_price_in_spread", "Comdex.C05.found_price_iff_crossing",
+                       "Comdex.C05.found_price_amounts_positive", "Comdex.C05.found_price_unmatchable_counterexample",
+                       "Comdex.C05.limit_respected_first_batch", "Comdex.C05.price_uniform_first_batch",
                        "Comdex.C05.base_conserved_counterexample"],
     harness_tests=["TestC05"],
     trusted_base=[KERNEL_TB, HARNESS_TB, DEC_TB,
